@@ -1365,6 +1365,12 @@ class TaskPool:
           - partially satisfied prerequisites (below stop point)
           - runahead-limited tasks (held back by the above)
         """
+        # Tasks spawned since the runahead limit was last applied (when the
+        # last active task finished, or as the next instance of a task that
+        # has just been released) are still runahead-limited: if they lie
+        # within the up to date limit they are about to be released.
+        self.compute_runahead()
+        limit = self.runahead_limit_point
         if any(
             itask.state(
                 *TASK_STATUSES_ACTIVE,
@@ -1374,6 +1380,10 @@ class TaskPool:
                 and not itask.state.is_runahead
                 # (avoid waiting pre-spawned absolute-triggered tasks:)
                 and itask.prereqs_are_satisfied()
+            ) or (
+                itask.state.is_runahead
+                and limit is not None
+                and itask.point <= limit
             ) for itask in self.get_tasks()
         ):
             return False
